@@ -16,7 +16,9 @@ Item(kind, id) == CHOOSE x \in SeqSet(pq[kind]) : x[3] = id
 Threads == Chk(NF <= 1 /\ NL <= 1, "TwoThreads")
 
 Step ==
-  CASE E[1] = "sub" -> Subscribe(E[2], E[3], E[4]) /\ bad' = Threads \cup Chk(E[5] = subs'[E[4]][E[3]], "Registry")
+  (* the registry holds exactly the subscribed queues, each once; the ORDER of the queues in it is not part of C06 *)
+  CASE E[1] = "sub" -> Subscribe(E[2], E[3], E[4])
+                       /\ bad' = Threads \cup Chk(SeqSet(E[5]) = SeqSet(subs'[E[4]][E[3]]) /\ Len(E[5]) = Len(subs'[E[4]][E[3]]), "Registry")
     [] E[1] = "pubcall" -> PubCall(E[2]) /\ bad' = Threads
     [] E[1] = "pubret" -> PubRet(E[2]) /\ bad' = Threads
     [] E[1] = "put" -> Put(E[2], E[3], E[4], E[5]) /\ bad' = Threads
